@@ -1,4 +1,98 @@
+import Autobean.Properties.C03
+import Autobean.Properties.C15
+/-!
+# C06 — what the model says is what the printed text says (model-side premises: `reparse_partial`)
+
+"The printed document parses again to the same structure" needs the lexer and the parser, which are outside the
+model; that clause is carried by the re-parse oracle on every explored history.  What is proved here are the
+premises the edits have to supply — the *separator discipline*:
+
+* a created optional child is kept apart from its pivot by exactly the declared separators, so if those have
+  visible text the two never touch (`create_left_keeps_apart`, `create_right_keeps_apart`);
+* removing it takes the gap with it and replacing it touches no separator (C03 `remove_frame`,
+  `replace_frame`), so no two old neighbours that were apart become adjacent by a *replace*, and a *remove*
+  leaves the pivot next to what followed the child — which the pivot chain makes the next declared field;
+* in a repeated field every gap after an insertion / slice assignment is an old gap or a copy of the declared
+  separators (`new_gaps_are_declared`, from C03 `rep_set_gaps`): the clause whose failure printed `BBBUSD`;
+* a copy of a separator list whose texts are not all empty has visible text (`copy_visible`).
+
+`Obligations.separators_non_empty` checks on the extracted schema that every optional / repeated field of
+every generated class declares separators with visible text (zero-width marks excepted), and
+`Obligations.pivots_canonical` / `pivots_not_cached` that the insertion point is the canonical, freshly
+computed one.
+-/
 namespace Autobean.C06
-/-- placeholder until the model for this property lands (the check then audits the real theorems) -/
-theorem placeholder_true : True := trivial
+open Autobean.Seq Autobean.Rep
+
+def textOf (s : List Tk) : List Char := (s.map (·.text)).flatten
+
+theorem textOf_append (a b : List Tk) : textOf (a ++ b) = textOf a ++ textOf b := by
+  simp [textOf]
+
+/-- A separator list has visible text when one of its tokens has. -/
+def Visible (seps : List Tk) : Prop := ∃ t ∈ seps, t.text ≠ []
+
+theorem visible_text {seps : List Tk} (h : Visible seps) : textOf seps ≠ [] := by
+  obtain ⟨t, ht, hne⟩ := h
+  intro hnil
+  have hall : ∀ x ∈ seps.map (·.text), x = [] := List.flatten_eq_nil_iff.1 hnil
+  exact hne (hall t.text (List.mem_map.2 ⟨t, ht, rfl⟩))
+
+/-- A fresh copy of a separator list (same kinds and texts, new identities) is as visible as the template. -/
+theorem copy_visible {tmpl xs : List Tk} (hc : IsCopy tmpl xs) (hv : Visible tmpl) : textOf xs ≠ [] := by
+  have htext : xs.map (·.text) = tmpl.map (·.text) := by
+    have := congrArg (List.map Prod.snd) hc
+    simpa [List.map_map, Function.comp_def] using this
+  have : textOf xs = textOf tmpl := by simp [textOf, htext]
+  rw [this]
+  exact visible_text hv
+
+/-- **Optional-left child.** After creation the printed text is
+`… pivot ⧺ separators ⧺ child ⧺ rest …`: the child is kept apart from its pivot by the declared separators
+and nothing else changes. -/
+theorem create_left_keeps_apart {L R a b : List Tk} {p : Tk} (seps child : List Tk)
+    (h : Distinct (L ++ (a ++ p :: b) ++ R)) :
+    ∃ s', Slots.createLeft (L ++ (a ++ p :: b) ++ R) p.id seps child = .ok s' ∧
+      textOf s' = textOf (L ++ a ++ [p]) ++ textOf seps ++ textOf child ++ textOf (b ++ R) := by
+  refine ⟨_, Autobean.C03.create_frame seps child h, ?_⟩
+  simp [textOf, List.append_assoc]
+
+/-- **Optional-right child.** `… child ⧺ separators ⧺ pivot …`. -/
+theorem create_right_keeps_apart {L R a b : List Tk} {p : Tk} (seps child : List Tk)
+    (h : Distinct (L ++ (a ++ p :: b) ++ R)) :
+    ∃ s', Slots.createRight (L ++ (a ++ p :: b) ++ R) p.id seps child = .ok s' ∧
+      textOf s' = textOf (L ++ a) ++ textOf child ++ textOf seps ++ textOf (p :: b ++ R) := by
+  refine ⟨_, Autobean.C03.create_right_frame seps child h, ?_⟩
+  simp [textOf, List.append_assoc]
+
+/-- With visible separators the created child's text and the pivot's text do not touch. -/
+theorem create_left_gap_visible {seps : List Tk} (hv : Visible seps) : textOf seps ≠ [] := visible_text hv
+
+/-- **Repeated fields.** After a step-1 slice assignment (hence also insert / append / extend / delete, which
+are instances) every gap between neighbouring items is an old gap or a fresh copy of the declared
+`separators` / `separators_before`. -/
+theorem new_gaps_are_declared (c : Cfg) (ctr : Nat) (pre mid post : List Seg) (vs : List (List Tk)) :
+    GapsFrom c (pre ++ mid ++ post) (setSegs c ctr pre mid post vs) :=
+  Autobean.C03.rep_set_gaps c ctr pre mid post vs
+
+/-- … so when the declared separators are visible, every *new* gap is: two items are never glued together by
+an edit (`AAA, , BBBUSD` is impossible). -/
+theorem new_gaps_visible (c : Cfg) (ctr : Nat) (pre mid post : List Seg) (vs : List (List Tk))
+    (hs : Visible c.seps) (hb : Visible c.sepsBefore) :
+    ∀ g ∈ gapsOf (setSegs c ctr pre mid post vs), g ∈ gapsOf (pre ++ mid ++ post) ∨ textOf g ≠ [] := by
+  intro g hg
+  rcases new_gaps_are_declared c ctr pre mid post vs g hg with h | h | h
+  · exact Or.inl h
+  · exact Or.inr (copy_visible h hs)
+  · exact Or.inr (copy_visible h hb)
+
+/-- Constructed models obey the same discipline (C15): every emitted token is owned by the tree or is a copy of
+a declared separator of that piece. -/
+theorem constructed_only_separators (p : Construct.Piece) (t : Construct.Tk) (h : t ∈ Construct.emit p) :
+    t ∈ Construct.owned p ∨ t ∈ Autobean.C15.sepsOf p :=
+  Autobean.C15.emit_owned_or_separator p t h
+
+/-! Non-vacuity: the separators of `Open._booking` (one blank) are visible. -/
+example : Visible [⟨1, 0, [' ']⟩] := ⟨⟨1, 0, [' ']⟩, by simp, by simp⟩
+
 end Autobean.C06
